@@ -340,9 +340,8 @@ Fixpoint to_rixns (cfg : config) (http : bool) (l : list intention) : list rixn 
 Definition to_intermediate (cfg : config) (http : bool) (ixns : list intention) : list rixn :=
   to_rixns cfg http (remove_same_source (sort_ixns ixns)).
 
-(* NOT in /repo: the repair proposed in fixes/C14-drop-shadowed-source-intentions.patch
-   (removeShadowedSourceIntentions): an intention whose source is strictly contained in the
-   source of a kept higher-precedence intention can never be the first to match and is dropped. *)
+(* removeShadowedSourceIntentions (/repo 214d73a): an intention whose source is strictly contained
+   in the source of a kept higher-precedence intention can never be the first to match and is dropped. *)
 Fixpoint drop_shadowed (kept : list rsvc) (l : list rixn) : list rixn :=
   match l with
   | [] => []
@@ -473,10 +472,10 @@ Definition translate_gen (repaired : bool) (cfg : config) (ixns : list intention
               | _ => [(KL4, Policy (optimize_principals l4) [PermAny])]
               end)%list.
 
-(* makeRBACRules as it is in /repo *)
-Definition translate := translate_gen false.
-(* makeRBACRules with the proposed repair applied *)
-Definition translate_repaired := translate_gen true.
+(* makeRBACRules as it is in /repo (since 214d73a shadowed intentions are dropped) *)
+Definition translate := translate_gen true.
+(* makeRBACRules as it was before 214d73a: kept for the regression witness only *)
+Definition translate_before_214d73a := translate_gen false.
 
 (* ------------------------------------------------------------------ rendering (what Go emits) *)
 
